@@ -1127,7 +1127,7 @@ pub fn c11_before_timer(ck: &mut Checker, sim: &mut Sim, proto: Proto, token: u6
         Some(c) => c,
         None => return,
     };
-    let now = crate::sim::abs_now(sim.now);
+    let now = crate::sim::wall_now(sim.now);
     for s in sim.sessions.keys() {
         if let (Some(st), Some(peer)) = (
             c.peers.get_state(&PeerIndex::new(*s)),
